@@ -2066,6 +2066,116 @@ fn differential(a: &ShardArgs) {
                             }
                         }};
                     }
+                    if r.chance(1, 8) {
+                        // octet strings: add / remove / update (both entry points)
+                        let x: String;
+                        let y: String;
+                        match r.below(5) {
+                            0 => {
+                                let cls = r.pick(&classes).clone();
+                                let ncls: Option<EventClass> = cls.clone().into();
+                                x = format!("{}", unsafe { crate::outstation::database_add_octet_string(pa, idx, cls.clone()) });
+                                y = format!("{}", db.add(idx, ncls, OctetStringConfig));
+                                hist.push(format!("#{step} add octet string index {idx} class {cls:?} -> {x} / {y}"));
+                            }
+                            1 => {
+                                x = format!("{}", unsafe { crate::outstation::database_remove_octet_string(pa, idx) });
+                                y = format!("{}", Remove::<OctetString>::remove(db, idx));
+                                hist.push(format!("#{step} remove octet string index {idx} -> {x} / {y}"));
+                            }
+                            k => {
+                                let len = match r.below(4) {
+                                    0 => 0usize,
+                                    1 => 255,
+                                    2 => 256,
+                                    _ => r.range(1, 12) as usize,
+                                };
+                                let bytes: Vec<u8> = (0..len).map(|_| r.u8()).collect();
+                                let opts = ffi::UpdateOptions { update_static: r.chance(4, 5), event_mode: r.pick(&modes).clone().into() };
+                                let nopts: UpdateOptions = opts.clone().into();
+                                let fv = unsafe { crate::outstation::octet_string_value_create() };
+                                for b in &bytes {
+                                    unsafe { crate::outstation::octet_string_value_add(fv, *b) };
+                                }
+                                let nv = OctetString::new(&bytes).ok();
+                                if k % 2 == 0 {
+                                    x = format!("{}", unsafe { crate::outstation::database_update_octet_string(pa, idx, fv, opts) });
+                                    y = format!("{}", nv.as_ref().map(|v| db.update(idx, v, nopts)).unwrap_or(false));
+                                } else {
+                                    let u = unsafe { crate::outstation::database_update_octet_string_2(pa, idx, fv, opts) };
+                                    x = format!("{:?}/{}/{}", u.result(), u.created(), u.discarded());
+                                    let yf: ffi::UpdateInfo = match nv.as_ref() {
+                                        Some(v) => db.update2(idx, v, nopts).into(),
+                                        None => ffi::UpdateInfoFields::default().into(),
+                                    };
+                                    y = format!("{:?}/{}/{}", yf.result(), yf.created(), yf.discarded());
+                                }
+                                unsafe { crate::outstation::octet_string_value_destroy(fv) };
+                                hist.push(format!("#{step} update octet string index {idx} {} octets {nopts:?} -> {x} / {y}", bytes.len()));
+                            }
+                        }
+                        out::eval(1);
+                        if x != y {
+                            bad = Some(("differential_result".into(), "octet_string".into(), format!("octet string operation returned {x} through the binding and {y} natively")));
+                            break;
+                        }
+                        out::count("differential_octet_string_ops", 1);
+                        continue;
+                    }
+                    if r.chance(1, 8) {
+                        // device attribute definitions: private sets take any type, the default set checks the type of well-known variations
+                        use dnp3::app::attr::{AttrProp, AttrSet, FloatType, OwnedAttrValue, OwnedAttribute};
+                        let set = *r.pick(&[0u8, 0, 1, 7, 255]);
+                        let any = r.u8();
+                        let var = *r.pick(&[0u8, 1, 196, 201, 209, 210, 211, 212, 217, 240, 242, 245, 246, 247, 250, 252, 253, 254, 255, any]);
+                        let writable = r.bool();
+                        let (x, val): (ffi::AttrDefError, OwnedAttrValue) = match r.below(7) {
+                            0 => {
+                                let t = format!("text-{}", r.u16());
+                                let c = std::ffi::CString::new(t.clone()).unwrap();
+                                (unsafe { crate::outstation::database_define_string_attr(pa, set, writable, var, &c) }, OwnedAttrValue::VisibleString(t))
+                            }
+                            1 => {
+                                let v = r.u64() as u32;
+                                (unsafe { crate::outstation::database_define_uint_attr(pa, set, writable, var, v) }, OwnedAttrValue::UnsignedInt(v))
+                            }
+                            2 => {
+                                let v = r.u64() as i32;
+                                (unsafe { crate::outstation::database_define_int_attr(pa, set, writable, var, v) }, OwnedAttrValue::SignedInt(v))
+                            }
+                            3 => {
+                                let v = r.u64() & 0x0000_FFFF_FFFF_FFFF;
+                                (unsafe { crate::outstation::database_define_time_attr(pa, set, writable, var, v) }, OwnedAttrValue::Dnp3Time(Timestamp::new(v)))
+                            }
+                            4 => {
+                                let v = r.bool();
+                                (unsafe { crate::outstation::database_define_bool_attr(pa, set, writable, var, v) }, OwnedAttrValue::SignedInt(v as i32))
+                            }
+                            5 => {
+                                let v = (r.u16() as f32) * 0.5;
+                                (unsafe { crate::outstation::database_define_float_attr(pa, set, writable, var, v) }, OwnedAttrValue::FloatingPoint(FloatType::F32(v)))
+                            }
+                            _ => {
+                                let v = (r.u64() as u32) as f64 * 0.25;
+                                (unsafe { crate::outstation::database_define_double_attr(pa, set, writable, var, v) }, OwnedAttrValue::FloatingPoint(FloatType::F64(v)))
+                            }
+                        };
+                        let prop = if writable { AttrProp::writable() } else { AttrProp::default() };
+                        let y = db.define_attr(prop, OwnedAttribute::new(AttrSet::new(set), var, val.clone()));
+                        let yname = match &y {
+                            Ok(()) => "ok".to_string(),
+                            Err(e) => norm(e),
+                        };
+                        hist.push(format!("#{step} define attribute set {set} variation {var} writable {writable} {val:?} -> {x:?} / {y:?}"));
+                        out::eval(1);
+                        if norm(&x) != yname {
+                            bad = Some(("differential_result".into(), "define_attr".into(), format!("attribute definition returned {x:?} through the binding and {y:?} natively")));
+                            break;
+                        }
+                        out::count("differential_attr_definitions", 1);
+                        out::distinct(&format!("D/attr/{yname}"));
+                        continue;
+                    }
                     if op == 9 && r.bool() {
                         // update_flags
                         let ft = r.pick(&flag_types).clone();
